@@ -213,7 +213,14 @@ def gen_tx(rng, max_in=4, max_out=4, big=False, witness=False, min_in=1, edges=T
         else:
             sc, ops, ks = gen_scriptsig(rng, big=big, nops=rng.randint(1, 2) if nin > 50
                                         else None)
-        ins.append((rng.randbytes(32), rng.choice([0, 1, 0xffffffff, rng.getrandbits(32)]),
+        txid_ = rng.randbytes(32)
+        vout_ = rng.choice([0, 1, 0xffffffff, rng.getrandbits(32)])
+        if rng.random() < 0.06:
+            # outpoints that read like something special: all zeros (with index 0xffffffff
+            # that is how a coinbase names its input), all ones, zeros but for one byte
+            txid_ = rng.choice([bytes(32), bytes(32), b"\xff" * 32, bytes(31) + b"\x01"])
+            vout_ = rng.choice([0xffffffff, 0xffffffff, 0, vout_])
+        ins.append((txid_, vout_,
                     sc, rng.choice([0xffffffff, 0xfffffffe, 0, rng.getrandbits(32)])))
         kinds.append(ks)
         opsl.append(ops)
